@@ -51,7 +51,9 @@ open Cassis.TS Cassis.Traverse Cassis.Xmi
 def SpineEnds (hp : Heap) (b : Nat) : Prop := ∃ hs : List Val, collectList hp (hp.length + 1) (.ref b) = .ok hs
 
 /-- one feature of a general structure: the sofa reference, a primitive, or a reference (to a structure or to a
-    collection, shared or inlined) -/
+    collection, shared or inlined).  The feature may be one of the reserved features `self_` / `type_` (declared as
+    `self` / `type`, written under the keys `self` / `type`, `@self` / `@type`): `ResOk`, `Spec/RoundTrip.lean`;
+    evaluated in `Spec/RoundTripJsonCollCheck.lean`, section "Reserved names". -/
 def JFeatOk (K : Consts) (ts : TypeSystem) (c : Cas) (ci : Nat) (hp : Heap) (isAnn : Bool) (o : Obj) (f : Feature) : Prop :=
   ResOk f ∧ f.name ≠ "xmiID" ∧ f.name ≠ "type" ∧ f.name ≠ "self" ∧ f.name ≠ ID ∧
   ∃ v : Val, alistGet? o.slots f.name = some v ∧
